@@ -85,6 +85,8 @@ func baseItems() []item {
 		k("a", "a", "a"), k("Ctrl+a", "\x01", "Ctrl+a"), k("Alt+a", "\x1ba", "Alt+a"), k("SS3 Up", "\x1bOA", "Up"), k("CSI Up", "\x1b[A", "Up"),
 		k("Ctrl+Up", "\x1b[1;5A", "Ctrl+Up"), k("Delete", "\x1b[3~", "Delete"), k("kitty Ctrl+a", "\x1b[97;5u", "Ctrl+a"), k("kitty a", "\x1b[97u", "a"),
 		k("wide", "\u4e16", "\u4e16"), k("Ctrl+\\ (0x1C)", "\x1c", "Ctrl+\\"), k("Ctrl+_ (0x1F)", "\x1f", "Ctrl+_"),
+		// function keys whose final byte is also the final byte of a report (F4 / XTSMGRAPHICS, F1 and DECRQSS letters)
+		k("CSI F4", "\x1b[S", "F4"), k("Shift+F4", "\x1b[1;2S", "Shift+F4"), k("Ctrl+F4", "\x1b[1;5S", "Ctrl+F4"), k("Shift+F1", "\x1b[1;2P", "Shift+F1"),
 		{name: "press left", bytes: "\x1b[<0;3;2M", want: []string{mouse(vaxis.MouseLeftButton, 2, 1, "press", "")}},
 		{name: "release left", bytes: "\x1b[<0;3;2m", want: []string{mouse(vaxis.MouseLeftButton, 2, 1, "release", "")}},
 		{name: "motion", bytes: "\x1b[<35;1;1M", want: []string{mouse(vaxis.MouseNoButton, 0, 0, "motion", "")}},
